@@ -17,7 +17,7 @@ STORE_ASSUMPTIONS = [
 
 def mc_job(name, scenario, size='s', maxanns=3, maxres=1, prelude=0, workers=8, timeout=1500, **kw):
     c = dict(MaxRes=maxres, MaxSets=1, MaxAnns=maxanns, MaxData=2, MaxKeys=2, Depth=100, Scenario=scenario, Size=size,
-             Prelude=prelude, Reads=[], DevShift=False, EmitAll=False)
+             Prelude=prelude, Reads=[], DevShift=False, EmitAll=False, P1=0, P2=0)
     c.update(kw)
     return dict(kind='mc', name=name, module='MC_Store.tla', constants=c, invariants=STORE_INVS, properties=['Monotone'],
                 constraint='Bounded', view='View', workers=workers, timeout=timeout)
@@ -89,7 +89,8 @@ def offsets_jobs(tier, seed):
     and text selection by offset on resources, ranges and annotations."""
     style = seed % 5
     big = dict(MaxAnns=12, MaxRes=3)
-    jobs = [gen_job('offsets_annotate', 'offsets', 7, depth=1, style=style, reads=['anntext'], per_state=False, **big),
+    jobs = [laws_job('offsets', 6 if tier == 'quick' else 9),
+            gen_job('offsets_annotate', 'offsets', 7, depth=1, style=style, reads=['anntext'], per_state=False, **big),
             gen_job('offsets_textsel', 'offsets', 7, depth=0, style=style, reads=['offsets'], **big)]
     if tier != 'quick':
         jobs += [gen_job('offsets_sim', 'offsets', 7, simulate=400, simdepth=4, style=(style + 1) % 5, reads=['anntext'], sample_mod=50, **big),
@@ -106,7 +107,7 @@ def bytes_jobs(tier, seed):
     after annotations populate the position index, and the C04 observations under non-default configurations."""
     style = seed % 5
     big = dict(MaxAnns=12, MaxRes=3)
-    jobs = []
+    jobs = [laws_job('text', 3 if tier == 'quick' else 4)]
     for ms in MILESTONES:
         jobs.append(gen_job(f'bytes_long_ms{ms}', 'offsets', 8, depth=0, style=style, reads=['bytes'], env=cfg_env(ms), **big))
         jobs.append(gen_job(f'bytes_p7_ms{ms}', 'offsets', 7, depth=0, style=style, reads=['bytes', 'anntext'], env=cfg_env(ms), **big))
@@ -122,9 +123,60 @@ def bytes_jobs(tier, seed):
     return jobs
 
 
+def laws_job(law, n, workers=8, timeout=1500):
+    return dict(kind='laws', name=f'laws_{law}_{n}', module='MC_Laws.tla', constants=dict(Law=law, N=n), invariants=['Inv'],
+                properties=[], workers=workers, timeout=timeout)
+
+
+def relations_jobs(tier, seed):
+    """C13: the complete truth table of the relation tests (single selections and sets of up to two) over a text."""
+    style = seed % 5
+    quick = tier == 'quick'
+    jobs = [laws_job('relations', 3 if quick else 4),
+            gen_job('rel_sets', 'offsets', 9, depth=0, style=style, reads=['relrows'], P1=3 if quick else 4, P2=2),
+            gen_job('rel_singles', 'offsets', 9, depth=0, style=style, reads=['relrows'], P1=5 if quick else 6, P2=1)]
+    return jobs
+
+
+def related_jobs(tier, seed):
+    """C06: related-text search from every reference (single range bound or unbound, pair of known selections,
+    annotation) for every set of known selections reachable within the depth."""
+    style = seed % 5
+    quick = tier == 'quick'
+    big = dict(MaxAnns=12)
+    jobs = [laws_job('relations', 3),
+            gen_job('related_states', 'related', 9, depth=2 if quick else 3, style=style, reads=['related'], P1=4 if quick else 5, **big)]
+    if quick:
+        jobs.append(gen_job('related_sim', 'related', 9, simulate=12, simdepth=4, style=style, reads=['related'], P1=5, sample_mod=7, **big))
+    else:
+        jobs.append(gen_job('related_sim', 'related', 9, simulate=150, simdepth=5, style=style, reads=['related'], P1=6, sample_mod=7, **big))
+        jobs.append(gen_job('related_states_ms2', 'related', 9, depth=2, style=style, reads=['related'], P1=5, env=cfg_env(2), **big))
+    return jobs
+
+
+def textop_jobs(tier, seed):
+    """C07: search / split / trim / regex / sequence on every text up to P1 characters over several alphabets, on the
+    whole resource and on every sub-range; segmentation for every set of known selections."""
+    style = seed % 5
+    quick = tier == 'quick'
+    big = dict(MaxAnns=12)
+    jobs = [laws_job('text', 3 if quick else 4)]
+    for alpha in (1, 2, 3) if quick else (1, 2, 3, 4):
+        jobs.append(gen_job(f'textops_a{alpha}', 'textops', 0, depth=1, style=style, reads=['textops'], P1=3 if quick else 4, P2=alpha))
+    jobs.append(gen_job('segment_states', 'related', 9, depth=2 if quick else 3, style=style, reads=['segment'], P1=4 if quick else 5, **big))
+    if not quick:
+        jobs.append(gen_job('textops_a1_ms1', 'textops', 0, depth=1, style=style, reads=['textops'], P1=3, P2=1, env=cfg_env(1)))
+    return jobs
+
+
 STORE_RULE = ('behaviours are emitted by TLC from MC_Store.tla (every behaviour of the given depth after a fixed prelude, '
               'plus random walks in -simulate mode); each is replayed on a fresh AnnotationStore and every step is '
               'validated by TLC against Trace.tla (state, raw indices, position index, public API answers)')
+
+
+TABLE_RULE = ('TLC enumerates every reachable store of the scenario (one behaviour per distinct specification state) and, '
+              'for each, the complete table of read-only questions of the menu; the harness asks them of the real store and '
+              'TLC (Trace.tla) recomputes every answer from the specification (StamRead.tla)')
 
 
 def plan_for(prop, tier, seed, replay_file=None):
@@ -135,6 +187,12 @@ def plan_for(prop, tier, seed, replay_file=None):
     if prop == 'C04':
         return dict(jobs=store_jobs(prop, tier, seed)[:1] + offsets_jobs(tier, seed) + store_jobs(prop, tier, seed)[1:],
                     rule=STORE_RULE, assumptions=STORE_ASSUMPTIONS)
+    if prop == 'C13':
+        return dict(jobs=relations_jobs(tier, seed), rule=TABLE_RULE, assumptions=STORE_ASSUMPTIONS, laws='relations')
+    if prop == 'C06':
+        return dict(jobs=related_jobs(tier, seed), rule=TABLE_RULE, assumptions=STORE_ASSUMPTIONS, laws='relations')
+    if prop == 'C07':
+        return dict(jobs=textop_jobs(tier, seed), rule=TABLE_RULE, assumptions=STORE_ASSUMPTIONS, laws='text')
     if prop == 'C12':
         return dict(jobs=store_jobs(prop, tier, seed)[:1] + bytes_jobs(tier, seed), rule=STORE_RULE, assumptions=STORE_ASSUMPTIONS)
     raise ToolError('no plan for ' + prop)
@@ -142,6 +200,9 @@ def plan_for(prop, tier, seed, replay_file=None):
 
 def run_job(job, prop, tier, seed):
     kind = job['kind']
+    if kind == 'laws':
+        job = dict(job, kind='mc')
+        kind = 'mc'
     if kind == 'mc':
         wd = workdir('mc_' + job['name'])
         cfg = os.path.join(wd, 'mc.cfg')
